@@ -20,6 +20,8 @@ fn mut_paths(thorough: bool) -> Vec<String> {
     for a in sigma { for b in sigma { v.push(format!("{}/{}", a, b)); if thorough { v.push(format!("{}/{}/", a, b)); v.push(format!("/{}/{}", a, b)); } } }
     if thorough { for a in ["a", "b", ".."] { for b in ["a", "x", ".."] { for c in ["a", "x", ".", ".."] { v.push(format!("{}/{}/{}", a, b, c)); } } } }
     for s in ["", "/", "//", "a//x", "a/./x", "x/y", "a/x/y", "b/x/y/z", "a/x/", "a/a/x", "b/../x", "a/../../x", "x/../y", "x/y/..", "a/a/..", "./x"] { v.push(s.into()); }
+    // names that are not valid UTF-8 (a Latin-1 byte, a lone continuation byte, 0xff); see proto::dec_path for the transport
+    for s in ["caf\u{E0E9}", "a/x\u{E080}", "a/x\u{E081}/y", "n\u{E0FF}/m\u{E0C3}"] { v.push(s.into()); }
     v.sort(); v.dedup();
     v
 }
